@@ -240,11 +240,34 @@ def gen_plan(rng):
     }
 
 
-def est_requests(plan):
+def est_requests(plan, cap=2000):
+    """Read requests the plan needs, counted the way the responder serves
+       them: a short read returns a fraction of what was *asked for*, and the
+       client asks again for the rest of the block, so a small fraction
+       costs about 1000/fraction x ln(block) requests per block"""
+
     sr = plan['policy'].get('short_reads') or [1000]
-    avg = sum(sr) / len(sr) / 1000.0
-    per = max(1.0, plan['block_size'] * avg)
-    return sum(op['size'] / per + 4 for op in plan['ops'])
+    io = plan.get('srv_io') or {}
+    sr2 = io.get('short_reads') or [1000]
+    bs = plan['block_size']
+    count = 0
+    k = 0
+
+    for op in plan['ops']:
+        left = op['size']
+        count += 4
+
+        while left > 0 and count <= cap:
+            r = min(bs, left)
+            left -= r
+
+            while r > 0 and count <= cap:
+                frac = min(sr[k % len(sr)], sr2[k % len(sr2)])
+                k += 1
+                r -= max(1, r * frac // 1000)
+                count += 1
+
+    return count
 
 
 def valid_plan(plan):
